@@ -33,6 +33,12 @@ def step (st : St) : List String → St × String
   | ["step", k] => match decNat? k with
     | some k => run st (.stepn k)
     | none => (st, "bad-op")
+  -- the step ended outside the executable (libc, ld.so): the trace machine has no pc for that; only the
+  -- bookkeeping (position, pokes) is compared
+  | ["stepi", "out"] => let (st', _) := run st (.stepn 1); (st', "done out p=" ++ showPokes st'.s.pokes)
+  | ["step", k, "out"] => match decNat? k with
+    | some k => let (st', _) := run st (.stepn k); (st', "done out p=" ++ showPokes st'.s.pokes)
+    | none => (st, "bad-op")
   -- `next`/`finish` with the temporaries the implementation installed and the number of trailing single steps
   | [_cmd, temps, k] => match decList? hexNat? temps, decNat? k with
     | some t, some k => if _cmd == "next" || _cmd == "finish" then run st (.tempRun t k) else (st, "bad-op")
